@@ -36,6 +36,7 @@ _OBS = None
 _installed = False
 _orig = {}
 NAMES = fisher.NAMES
+BUDGET = 1500       # fully judged derivative calls per case before 1-in-50 thinning starts
 EVERY = 1           # in-situ thinning for large islands (set by other properties)
 
 
@@ -113,6 +114,12 @@ def post_jacobian(pars, x, y, result):
     if x.size > 400 and (o.counters.get('contract_jacobian_seen', 0) % max(EVERY, 1)):
         o.count('contract_jacobian_seen')
         return True
+    if o.counters.get('contract_jacobian', 0) > BUDGET and (o.counters.get('contract_jacobian_seen', 0) % 50):
+        # a fit that runs to tens of thousands of iterations (a noisy elongated source split into many components): after the
+        # first BUDGET fully judged calls of a case only every 50th call is judged, so that the monitor does not dominate the run
+        o.count('contract_jacobian_seen')
+        o.count('contract_jacobian_thinned_over_budget')
+        return True
     o.count('contract_jacobian_seen')
     want = fisher.jacobian(comps, free, x, y)
     got = np.asarray(result, dtype=float)
@@ -131,6 +138,9 @@ def post_lmfit_jacobian(pars, x, y, errs, B, emp, result):
         return True
     x = np.asarray(x, dtype=float)
     y = np.asarray(y, dtype=float)
+    if o.counters.get('contract_lmfit_jacobian', 0) > BUDGET and (o.counters.get('contract_lmfit_jacobian_seen', 0) % 50):
+        o.count('contract_lmfit_jacobian_seen')
+        return True
     if x.size > 400 and (o.counters.get('contract_lmfit_jacobian_seen', 0) % max(EVERY, 1)):
         o.count('contract_lmfit_jacobian_seen')
         return True
